@@ -501,7 +501,8 @@ class ProgGen:
         r = self.rng
         n = r.randint(0, 5)
         k = r.choice(['rec', 'counter', 'hof', 'loop', 'shadow', 'quote', 'qq', 'eval', 'variadic', 'setdeep', 'twoclos', 'letseq',
-                      'nil1', 'nil2', 'nil3', 'nil4', 'mset', 'mset2', 'msetclo', 'recshadow', 'laterdef', 'evaldef', 'casesym', 'casesym'])
+                      'nil1', 'nil2', 'nil3', 'nil4', 'mset', 'mset2', 'msetclo', 'recshadow', 'laterdef', 'evaldef', 'casesym', 'casesym',
+                      'emptylet', 'variadic2'])
         f, g, x, y = self.fresh(), self.fresh(), r.choice(self.names), r.choice(self.names)
         if k == 'casesym':
             # clause keys are data: a key that happens to be the name of a variable in scope (at any distance) still
@@ -530,6 +531,14 @@ class ProgGen:
             return [['define', x, n], ['quasiquote', [1, ['unquote', x], ['unquote-splice', ['list', x, 2]], 'z']]]
         if k == 'eval':
             return [['define', x, n], ['eval', ['quote', ['+', x, 1]]], ['let', [[x, 10]], ['eval', ['quote', ['*', x, 2]]]]]
+        if k == 'emptylet':
+            # a let without bindings is still a scope of its own: it sees the directly enclosing binding, and what it defines ends with it
+            return [['define', x, 1], ['let', [[x, 2]], ['let', [], x]], ['let', [], ['define', f, n], ['+', f, x]], ['define', f, 5],
+                    [['fn', [x], ['let', [], ['set', [x, ['+', x, 1]]], x]], n], ['list', f, x]]
+        if k == 'variadic2':
+            # the rest parameter is a binding of the function like any other, also when the name exists further out
+            return [['define', x, ['quote', [9, 9, 9]]], [['fn', x, ['length', x]], 1, 2], ['let', [[y + 'v', 5]], [['fn', y + 'v', ['first', y + 'v']], n, 2]],
+                    ['define', g, 7], [['fn', g, ['set', [g, 0]], g], 1], g, ['length', x]]
         if k == 'variadic':
             return [['define', f, ['fn', 'args', ['length', 'args']]], [f], [f, 1, 2, n], [['fn', 'xs', ['first', 'xs']], n, 2]]
         if k == 'setdeep':
